@@ -1,5 +1,6 @@
 import HqModel.Base.Proto
 import HqModel.Auth.Scenario
+import HqModel.Auth.Sites
 /-!
 Driver `hqm-auth`: one case = one row of the C20 table.
   `op base <keyA> <keyB> <myA> <peerA> <myB> <peerB> <protoA> <protoB>`
@@ -108,7 +109,22 @@ def showOutcome (o : Outcome) : List String :=
 
 abbrev St := Option (Config × Config)
 
+def parseSite : String → Option Site
+  | "hq-client" => some .hqClient | "hq-server" => some .hqServer | "tako-worker" => some .takoWorker | _ => none
+
+/-- component `authhq`: the row of `HqModel/Auth/Sites.lean` -/
+def siteRow (site peer key : String) : Option String :=
+  let k : Option Nat := if key = "key=1" then some 1 else none
+  match parseSite site, peer with
+  | some st, "honest" => some s!"out res {showRes (siteHonest st k)}"
+  | some st, "echo" => some s!"out res {showRes (siteEcho st k)}"
+  | _, _ => none
+
 def step (s : St) : List String → St × List String
+  | ["site", site, peer, key] =>
+    match siteRow site peer key with
+    | some l => (s, [l])
+    | none => (s, ["out !bad-op"])
   | "base" :: rest =>
     match parseBase rest with
     | some (cA, cB) => (some (cA, cB), showOutcome (earlierSession cA cB))
